@@ -52,10 +52,10 @@ def desc_text(draw):
 SELECTION = st.lists(st.sampled_from(ATTRS), min_size=1, max_size=6)
 CASE = st.fixed_dictionaries({
     "texts": st.lists(desc_text(), min_size=1, max_size=3), "attrs": SELECTION, "unknown": st.sampled_from([None, None, "no_such_attribute", "lotz"]),
-    "unknown_pos": st.integers(0, 6), "headers": st.sampled_from(["false", "true", "list", "dict", "none"]),
+    "unknown_pos": st.integers(0, 6), "headers": st.sampled_from(["false", "true", "list", "dict", "none", "short_list", "long_list", "same_label_list"]),
     "existing": st.booleans(), "mode": st.sampled_from(["w", "a"]),
     "writer": st.sampled_from(["tracts_to_csv", "tracts_to_csv", "TractWriter", "TractWriter", "records"]),
-    "plus_cols": st.booleans(), "uid": st.sampled_from([None, None, 0, 27]), "calls": st.integers(1, 3),
+    "plus_cols": st.booleans(), "uid": st.sampled_from([None, None, 0, 27]), "calls": st.sampled_from([1, 2, 3, 1, 2, 3, 0, -1]),      # 0: closed without any write(); -1: only write(None)
     "reopen": st.booleans(),          # TractWriter: close() and open() again between write() calls
     "level": st.sampled_from(["TractList", "PLSSDesc"]),      # tracts_to_csv / records through the container or through the description
     "write_form": st.sampled_from(["descs", "tractlist", "tracts", "generator", "mixed", "one_by_one"]),   # what write() is handed
@@ -101,10 +101,18 @@ def expected_header(attrs, how):
         return [Tract.ATTRIBUTES.get(a, a) for a in attrs]
     if how == "list":
         return [f"col{i}" for i in range(len(attrs))]
+    if how == "short_list":
+        return [f"col{i}" for i in range(max(1, len(attrs) - 1))]
+    if how == "long_list":
+        return [f"col{i}" for i in range(len(attrs) + 2)]
+    if how == "same_label_list":
+        return ["x"] * len(attrs)
     return [{"trs": "TRS!", "desc": "Description?", "lots": "LOTS"}.get(a, a) for a in attrs]
 
 
 def header_arg(attrs, how):
+    if how in ("short_list", "long_list", "same_label_list"):
+        return expected_header(attrs, how)          # a list of labels is written as given; it does not decide how many cells a row has
     return {"false": False, "none": None, "true": True, "list": [f"col{i}" for i in range(len(attrs))],
             "dict": {"trs": "TRS!", "desc": "Description?", "lots": "LOTS"}}[how]
 
@@ -178,7 +186,15 @@ def oracle(c):
             plus = ["extra A", "extra, B"] if c["plus_cols"] else None
             w = TractWriter(attrs, fp, c["mode"], plus_cols=plus, nice_headers=hdr, uid=c["uid"])
             uid = c["uid"] if c["uid"] is not None else 0
-            chunks = [descs[i::c["calls"]] for i in range(c["calls"])]
+            ncalls = c["calls"]
+            if ncalls <= 0:
+                # a writer that is closed without having written a tract leaves a new file with its header row (and an existing one alone)
+                if ncalls == -1:
+                    if w.write(None) not in (0, None):
+                        fails.append(Failure("TractWriter:write_none", "write(None) reported rows", **ctx))
+                chunks = []
+            else:
+                chunks = [descs[i::ncalls] for i in range(ncalls)]
             total_written = 0
             for ci, chunk in enumerate(chunks):
                 if ci and c.get("reopen"):
@@ -257,6 +273,8 @@ def classes(c):
         out.append(f"level={c.get('level', 'TractList')}")
     if c["unknown"]:
         out.append("unknown_attribute")
+    if c["writer"] == "TractWriter" and c["calls"] <= 0:
+        out.append("no_write_call")
     if c.get("reopen") and c["writer"] == "TractWriter" and c["calls"] > 1:
         out.append("reopened")
     if _last.get("nt"):
@@ -291,5 +309,5 @@ SUBS = [
         shards={"quick": 6, "thorough": 8}),
     Sub("random", oracle, strategy=lambda tier: CASE, nontrivial=lambda c: bool(_last.get("nt")), classes=classes, render=render,
         n={"quick": 400, "thorough": 5000}, shards={"quick": 8, "thorough": 16},
-        essential=("writer=tracts_to_csv", "writer=TractWriter", "writer=records", "level=PLSSDesc", "write_form=generator", "write_form=mixed", "headers=list", "headers=dict", "mode=a", "existing", "unknown_attribute", "reopened", "nontrivial")),
+        essential=("writer=tracts_to_csv", "writer=TractWriter", "writer=records", "level=PLSSDesc", "write_form=generator", "write_form=mixed", "headers=list", "headers=dict", "headers=short_list", "headers=same_label_list", "no_write_call", "mode=a", "existing", "unknown_attribute", "reopened", "nontrivial")),
 ]
